@@ -111,6 +111,8 @@ def call(eng, e, st, fr, k):
 
 
 def value_kind(v):
+    if _is_z3(v) and z3.is_arith(v):
+        return "num"
     if isinstance(v, Ref):
         return v.kind
     if isinstance(v, Arr):
@@ -513,8 +515,9 @@ def _np_zeros(eng, a, kw, st, fr, k, node):
     else:
         n = eng.to_int(shape)
         arr, st = _new_array(eng, st, n, init, sort, hint="np")
-    eng.oblige("safety", "array length non-negative", st, n >= 0, node)
-    return k(arr, st)
+    # numpy raises ValueError("negative dimensions are not allowed")
+    fr.on_raise(Exc("ValueError"), st.assume(n < 0))
+    return k(arr, st.assume(n >= 0))
 
 
 @lib("np.all")
@@ -724,3 +727,9 @@ def _np_empty(eng, a, kw, st, fr, k, node):
         npd = z3.Function("fn:np.dtype", V, V)
         s2 = s2.assume(dt(z3.Const("arr:" + base, V)) == npd(eng.to_v(d)))
     return k(Arr(base, None, z3.IntVal(0), n), s2)
+
+
+@method("num", "astype")
+def _num_astype(eng, recv, a, kw, st, fr, k, node):
+    """x.astype(np.intNN) on a scalar: identity under assumption A1 (no wrap-around)."""
+    return k(recv, st)
